@@ -123,11 +123,20 @@ func ruleColourBySign(c *core.Ctx, rule string) {
 		explore := func(fn *ssa.Function, binds []absint.Value, colour string, params []absint.Value) {
 			x := newExec(c)
 			x.Hooks.Decide = func(x *absint.Exec, s *absint.State, atom string, outs []string) {
-				if len(outs) == 1 && strings.HasPrefix(atom, "b(§@") {
-					id := strings.TrimSuffix(strings.TrimPrefix(atom, "b(§@"), ")")
-					if strings.HasSuffix(x.LocOf[id], "·Color") {
-						s.SetData("colour", map[string]string{"T": "on", "F": "off"}[outs[0]])
+				// the colour switch: a boolean field or parameter named after colour, wherever the reporter keeps it
+				// (r.config.Color, a private copy r.color, a parameter color)
+				if len(outs) != 1 || !strings.HasPrefix(atom, "b(§") {
+					return
+				}
+				name := strings.TrimSuffix(strings.TrimPrefix(atom, "b(§"), ")")
+				if strings.HasPrefix(name, "@") {
+					name = x.LocOf[name[1:]]
+					if i := strings.LastIndex(name, "·"); i >= 0 {
+						name = name[i+len("·"):]
 					}
+				}
+				if colourNamed(name) {
+					s.SetData("colour", map[string]string{"T": "on", "F": "off"}[outs[0]])
 				}
 			}
 			st := x.NewState(fn, params, binds)
@@ -186,6 +195,25 @@ func ruleColourBySign(c *core.Ctx, rule string) {
 			}
 		} else {
 			explore(top, nil, "", nil)
+			// a colour switch taken as a parameter must be the colour setting at every call site
+			for i, p := range top.Params {
+				if bt, ok := p.Type().Underlying().(*types.Basic); !ok || bt.Kind() != types.Bool || !colourNamed(p.Name()) {
+					continue
+				}
+				for _, g := range c.P.Funcs {
+					for _, b := range g.Blocks {
+						for _, in := range b.Instrs {
+							call, ok := in.(ssa.CallInstruction)
+							if !ok || core.Callee(call.Common()) != top || i >= len(call.Common().Args) {
+								continue
+							}
+							if a := call.Common().Args[i]; !colourSetting(a, 0) {
+								c.Violate(rule, fname, "colour switch at "+core.FuncName(g), c.P.Pos(in.Pos()), "the colour switch handed to "+fname+" is "+a.String()+", not the colour setting", nil)
+							}
+						}
+					}
+				}
+			}
 		}
 		// oracle
 		plain := ""
@@ -243,6 +271,39 @@ func ruleColourBySign(c *core.Ctx, rule string) {
 			c.Violate(rule, fname, "colour x sign", pos, m, nil)
 		}
 	}
+}
+
+func colourNamed(name string) bool {
+	l := strings.ToLower(name)
+	return strings.Contains(l, "color") || strings.Contains(l, "colour")
+}
+
+// colourSetting: the value is read from a field or parameter named after colour, unchanged.
+func colourSetting(v ssa.Value, depth int) bool {
+	if depth > 4 {
+		return false
+	}
+	switch t := v.(type) {
+	case *ssa.Parameter:
+		return colourNamed(t.Name())
+	case *ssa.Field:
+		return colourNamed(fieldNameV(t.X.Type(), t.Field))
+	case *ssa.UnOp:
+		if t.Op != token.MUL {
+			return false
+		}
+		if fa, ok := t.X.(*ssa.FieldAddr); ok {
+			return colourNamed(fieldName(fa.X.Type(), fa.Field))
+		}
+	case *ssa.Phi:
+		for _, e := range t.Edges {
+			if !colourSetting(e, depth+1) {
+				return false
+			}
+		}
+		return len(t.Edges) > 0
+	}
+	return false
 }
 
 func boolValue(b bool) absint.Value {
@@ -425,7 +486,7 @@ func cmpParts(lit *ast.FuncLit) (string, token.Token, string, bool) {
 func init() {
 	register(&Property{
 		ID:    "C15",
-		Rules: []string{"C15-R1", "C15-R2", "C15-R3", "C15-R4", "C15-R5", "C15-R6", "C15-R7", "C15-R8", "C15-R9", "C15-R10", "C15-R11", "C06-R7"},
+		Rules: []string{"C15-R1", "C15-R2", "C15-R3", "C15-R4", "C15-R5", "C15-R6", "C15-R7", "C15-R8", "C15-R9", "C15-R10", "C15-R11", "C06-R7", "C15-R12", "C15-R13", "C07-R5"},
 		Explain: "Decides that presentation switches are wired so that they cannot change numbers: C15-R1 the templates selectable through the same option show the same set of fields; C15-R3 every shorten width equals the width of the column the name is printed in; C15-R2 every colouring function, over colour on/off x sign(value), renders positive red, negative green, zero and colour-off plain, and stripped of escape sequences every rendering equals the plain one (same verb, same width); " +
 			"C15-R4 at the register's expansion sites what goes into the day's accumulator does not depend on totals-only (the switches gate lines only); C15-R5 each descending comparator is the ascending one mirrored; " +
 			"C15-R6 presentation flags declared on several levels (no-color) are read through the context lineage so either position works; " +
@@ -434,9 +495,12 @@ func init() {
 			"C15-R9 no package-level state (a template cache, a colour switch) is written while a command runs; " +
 			"C15-R10 every printf format in the tree is built from constants and constant padding, so no display mode can misprint a name that contains '%'; " +
 			"C15-R11 no string is cut at a computed byte position in the command packages (shortening is the rune-aware library's); " +
-			"C06-R7 (shared) no reporter or template function converts a date to the process time zone, so every template and the old reporter show the same day.",
+			"C06-R7 (shared) no reporter or template function converts a date to the process time zone, so every template and the old reporter show the same day. C15-R12 the '=' column is exactly positive + negative register of one name (no rounding or scaling of the parts); C15-R13 every flag of a lineage level is asked for on every level of the context lineage. C07-R5 (shared) reporter selectors depend on the single-element request first.",
 		NotDecided: "that two renderings contain the same digits, the interleaving claim, truncation arithmetic inside the truncate library",
 		Run: func(c *core.Ctx) {
+			ruleReporterSelection(c, "C07-R5", nil)
+			ruleNoFlagSkipped(c, "C15-R13")
+			ruleSumOfRegisters(c, "C15-R12")
 			ruleTemplates(c, "", "C15-R1", "C15-R3")
 			ruleColourBySign(c, "C15-R2")
 			ruleTotalsGates(c, "C15-R4")
@@ -514,7 +578,7 @@ func boundarySafe(v ssa.Value, depth int) bool {
 		if b, ok := x.Call.Value.(*ssa.Builtin); ok && b.Name() == "len" {
 			return true
 		}
-		if cal := x.Call.StaticCallee(); cal != nil {
+		if cal := core.Callee(&x.Call); cal != nil {
 			n := cal.String()
 			return strings.HasPrefix(n, "strings.Index") || strings.HasPrefix(n, "strings.LastIndex") || n == "unicode/utf8.RuneLen"
 		}
